@@ -84,7 +84,10 @@ def run(prop, tier, seed, scratch, replay=None):
     res.add_report(rep)
     if rep["traces"] != ncases:
         res.errors.append("driver replayed %d of %d cases" % (rep["traces"], ncases))
+    st = vlib.binding_selftest(scratch, drv, lambda i, o: ["-in", i, "-out", o, "-workers", 4, "-seed", seed], cases, ["fee", "change", "nin", ("res", lambda v: "insufficient")],
+                               where=lambda c: (c.get("exp") or {}).get("res") == "ok")
     res.coverage = {
+        "binding_selftest": st,
         "states": states, "transitions": transitions,
         "traces_validated_against_impl": rep["traces"],
         "evaluations": rep["checks"], "distinct_nontrivial": rep["distinct_nontrivial"],
